@@ -63,7 +63,8 @@ META = {
         "fields; the Sphinx `domain:type` key cut at the same colon as from_sphinx and the native loader cut it; the item as a "
         "4-tuple or, through a helper that returns project_name/project_version/uri/display_name in tuple order, as Sphinx's item "
         "class; a local list of a mapping's keys minus the keys without ':') shows that the flat Sphinx keys are walked grouped by "
-        "domain in order of first occurrence - the order in which the native nesting lists them - and that each coordinate is tested against its own filter - through "
+        "domain in order of first occurrence (a stable sort on list.index of the domain, or on a {domain: index} dict in which the "
+        "first occurrence wins - a dict comprehension over enumerate keeps the last and is rejected) - the order in which the native nesting lists them - and that each coordinate is tested against its own filter - through "
         "match_with_wildcard or through _create_regex(<filter>).fullmatch, never Pattern.match/search and never on the joined "
         "domain:type key -, that all four tests dominate every yield (an `f is None or ...` disjunct is accepted; a boolean flag variable is judged "
         "by every value it can have been given; a plain string test - startswith, ==, in - of a coordinate as a fast path is "
@@ -82,7 +83,8 @@ META = {
         "render_link_inventory per number of path parts (1, 2, 3; IndexError under suppress/except, tuple assignments evaluated as a "
         "whole, length guards, None padding) shows every given part bound to its filter at the lookup; the inventory stored for a "
         "configuration key is fetched with that entry's base URL and is not memoised under a key lacking it (several stores and "
-        "memo fills are judged one by one); no store into self._inventories is control-dependent on the link's own filters, so "
+        "memo fills are judged one by one); every method that installs a new md_config drops the lazily loaded inventories "
+        "unconditionally or under a comparison of the whole inventories setting (not of its keys); no store into self._inventories is control-dependent on the link's own filters, so "
         "the inventories are registered in configuration order; inside myst_parser.inventory every function that receives `base_url` hands it on "
         "unchanged to each package callee that takes one and puts it into the InventoryType it builds (fetch_inventory -> load -> "
         "_load_v1/_load_v2); on the CFG, evaluated "
@@ -1326,6 +1328,7 @@ class Kinds:
         self.keyviews: dict[str, tuple[str, ast.AST]] = {}  # local list of a mapping's keys (possibly minus the keys without ':')
         self.domlists: dict[str, tuple[str, str]] = {}  # local list of the domains of a key view: name -> (key view, where the key is cut)
         self.understood_comps: set[int] = set()
+        self.domranks: dict[str, tuple[str, str, str]] = {}  # {domain: index} dicts: name -> (key view, where the key is cut, "first" | "last" occurrence wins)
         self.recviews: dict[str, tuple] = {}  # local list of the records a generator helper yields: name -> (sub, roles, arg role, node)  # loop -> alternatives of its iterable that are built from a filter
         if not fi.params:
             raise Unsupported(f"{fi.qualname} has no parameter")
@@ -1514,6 +1517,24 @@ class Kinds:
             if followed is not None:  # groups = list(_iter_groups(mapping))
                 self.recviews[t.id] = (*followed, n)
                 return
+        if isinstance(v, ast.DictComp) and len(v.generators) == 1 and isinstance(t, ast.Name) and not v.generators[0].ifs:
+            # {key.split(":", 1)[0]: i for i, key in enumerate(keys)}: a later key of the same domain overwrites the index,
+            # so every domain is ranked by its LAST occurrence (reversed(...) would make it the first)
+            gen = v.generators[0]
+            it = gen.iter
+            rev = False
+            if isinstance(it, ast.Call) and isinstance(it.func, ast.Name) and it.func.id == "reversed" and len(it.args) == 1:
+                it, rev = it.args[0], True
+                if isinstance(it, ast.Call) and isinstance(it.func, ast.Name) and it.func.id == "list" and len(it.args) == 1:
+                    it = it.args[0]
+            if (isinstance(it, ast.Call) and isinstance(it.func, ast.Name) and it.func.id == "enumerate" and len(it.args) == 1 and not it.keywords and isinstance(it.args[0], ast.Name) and it.args[0].id in self.keyviews
+                    and isinstance(gen.target, ast.Tuple) and len(gen.target.elts) == 2 and all(isinstance(x, ast.Name) for x in gen.target.elts)):
+                ivar, kvar = gen.target.elts[0].id, gen.target.elts[1].id
+                dom = _domain_of(v.key, kvar)
+                if dom is not None and isinstance(v.value, ast.Name) and v.value.id == ivar:
+                    self.understood_comps.add(id(gen))
+                    self.domranks[t.id] = (it.args[0].id, dom, "first" if rev else "last")
+                    return
         if isinstance(v, ast.ListComp) and len(v.generators) == 1 and isinstance(t, ast.Name) and isinstance(v.generators[0].target, ast.Name):
             gen = v.generators[0]
             var = gen.target.id
@@ -1597,6 +1618,13 @@ def _key_order(kd: "Kinds", loop: ast.For):
     if len(sorts) > 1 or sorts[0].func.attr != "sort" or sorts[0].args or [k.arg for k in sorts[0].keywords] != ["key"]:
         return "other", sorts[0]
     lam = sorts[0].keywords[0].value
+    if isinstance(lam, ast.Lambda) and len(lam.args.args) == 1 and isinstance(lam.body, ast.Subscript) and isinstance(lam.body.value, ast.Name) and lam.body.value.id in kd.domranks:
+        # sort key = rank[domain of the key], the rank taken from a {domain: index} dict
+        src, cut, wins = kd.domranks[lam.body.value.id]
+        dom = _domain_of(lam.body.slice, lam.args.args[0].arg)
+        if src == name and dom is not None and dom == cut == "first":
+            return ("grouped", sorts[0]) if wins == "first" else ("last", sorts[0])
+        return "other", sorts[0]
     if isinstance(lam, ast.Lambda) and len(lam.args.args) == 1 and isinstance(lam.body, ast.Call) and isinstance(lam.body.func, ast.Attribute) and lam.body.func.attr == "index" and isinstance(lam.body.func.value, ast.Name) and len(lam.body.args) == 1:
         dl = kd.domlists.get(lam.body.func.value.id)
         dom = _domain_of(lam.body.args[0], lam.args.args[0].arg)
@@ -1899,6 +1927,9 @@ def r3_pairing(corpus: Corpus, rep: Report, tier: str):
                     elif how == "flat":
                         rep.violation("C19.R3", k, fx.module.site(loop), f"the loop walks the flat `domain:type` keys in their own order (`{short(loop.iter, 40)}`), while from_sphinx / load nest every type under the first occurrence of its domain: "
                                       "for keys listed as std:label, py:class, std:doc the native form yields std:label, std:doc, py:class - matches come in a different order and an ambiguous inv: link resolves to a different first match under Sphinx than under docutils")
+                    elif how == "last":
+                        rep.violation("C19.R3", k, fx.module.site(node), f"`{short(node, 60)}` ranks every domain by the index of its LAST key (a dict built over enumerate keeps the last index per domain), the native nesting lists a domain where it FIRST occurs: "
+                                      "for keys std:label, py:class, std:doc the native form yields std:label, std:doc, py:class but this order is py:class, std:label, std:doc")
                     else:
                         rep.violation("C19.R3", k, fx.module.site(node), f"`{short(node, 60)}` re-orders the `domain:type` keys, but not into the order of the native nesting (stable sort by the first occurrence of the key's domain, the key cut at the first ':')")
             # (e) every loop visits every entry of its level; the filter restricts the result only through match_with_wildcard
@@ -2934,6 +2965,51 @@ def _base_url_check(corpus: Corpus, rep: Report) -> None:
         rep.ok("C19.R4", k, fi.module.site(loops[0]))
 
 
+def _inventory_cache_reset_check(corpus: Corpus, rep: Report) -> None:
+    """`self._inventories` is filled lazily from `self.md_config.inventories` (key -> (uri, path)); wherever the renderer
+    takes a (possibly different) configuration, the loaded inventories must be dropped - unconditionally, or under a test
+    of the whole `inventories` setting, not merely of its keys (the same key may point at another uri / path)."""
+    ci = corpus.cls("mdit_to_docutils.base:DocutilsRenderer")
+    takers = [f for f in ci.methods.values() if any(isinstance(n, (ast.Assign, ast.AnnAssign)) and (dotted(n.targets[0] if isinstance(n, ast.Assign) else n.target) or "") == "self.md_config" for n in f.local_nodes())]
+    if not takers:
+        raise Unsupported("DocutilsRenderer: no method assigns self.md_config")
+    for f in takers:
+        k = f"{f.fq}|the loaded inventories are dropped when the renderer takes a configuration"
+        cfg = get_cfg(f)
+        resets = [n for n in f.local_nodes() if isinstance(n, (ast.Assign, ast.AnnAssign)) and (dotted(n.targets[0] if isinstance(n, ast.Assign) else n.target) or "") == "self._inventories" and isinstance(n.value, ast.Constant) and n.value.value is None]
+        others = [n for n in f.local_nodes() if isinstance(n, (ast.Assign, ast.AnnAssign)) and (dotted(n.targets[0] if isinstance(n, ast.Assign) else n.target) or "") == "self._inventories" and n not in resets]
+        if others:
+            raise Unsupported(f"{f.qualname}: self._inventories is assigned `{short(others[0], 50)}`")
+        if not resets:
+            if f.name == "__init__":
+                continue
+            rep.violation("C19.R4", k, f.site(), f"{f.qualname} installs a new md_config but keeps self._inventories: a reused renderer resolves inv: links against the inventories (and base URLs) of the previous configuration")
+            continue
+        always = cfg.counts(ENTRY, [EXIT], lambda x: 1 if x in resets else 0).get(EXIT) or set()
+        if 0 not in always:
+            rep.ok("C19.R4", k, f.module.site(resets[0]))
+            continue
+        # conditional reset: the condition must compare the inventories setting as a whole
+        verdict = None
+        for r in resets:
+            for t, pol in cfg.guards(r):
+                if not any(isinstance(x, ast.Attribute) and x.attr == "inventories" for x in ast.walk(t)):
+                    continue
+                keys_only = [x for x in ast.walk(t) if (isinstance(x, ast.Call) and isinstance(x.func, ast.Name) and x.func.id in ("set", "frozenset", "sorted", "list", "tuple", "len") and x.args and any(isinstance(y, ast.Attribute) and y.attr == "inventories" for y in ast.walk(x.args[0])))
+                             or (isinstance(x, ast.Call) and isinstance(x.func, ast.Attribute) and x.func.attr == "keys" and isinstance(x.func.value, ast.Attribute) and x.func.value.attr == "inventories")]
+                if keys_only:
+                    verdict = (t, f"the loaded inventories are only dropped under `{short(t, 70)}`, which compares the KEYS of the inventories setting: a configuration that keeps a key but points it at another uri / path "
+                                  "keeps the inventory (and base URL) loaded for the old one, so inv: links are rendered against the wrong inventory")
+                elif verdict is None:
+                    verdict = (t, None)
+        if verdict is None:
+            raise Unsupported(f"{f.qualname}: self._inventories is reset on some paths only, under a condition that is not a test of the inventories setting")
+        if verdict[1] is None:
+            rep.ok("C19.R4", k, f.module.site(verdict[0]), "reset under a comparison of the whole inventories setting")
+        else:
+            rep.violation("C19.R4", k, f.module.site(verdict[0]), verdict[1])
+
+
 def _base_url_chain_check(corpus: Corpus, rep: Report) -> None:
     """inventory module: a function that receives `base_url` hands it on unchanged to every package callee that takes one,
     and the InventoryType literal it builds carries it (fetch_inventory -> load -> _load_v1/_load_v2 -> {'base_url': ...})."""
@@ -3079,6 +3155,7 @@ def r4_link_paths(corpus: Corpus, rep: Report, tier: str):
     # (a'') the inventory registered under a configuration key carries that entry's base URL
     _base_url_check(corpus, rep)
     _base_url_chain_check(corpus, rep)
+    _inventory_cache_reset_check(corpus, rep)
     # (b) match-count paths
     g = get_callgraph(corpus)
     for fq, has_missing, rk in LINK_FUNCS:
@@ -3310,7 +3387,7 @@ def r4_link_paths(corpus: Corpus, rep: Report, tier: str):
             rep.ok("C19.R4", k, where.module.site(uri), unparse(uri)[:100])
         else:
             rep.violation("C19.R4", k, where.module.site(uri), verdict)
-    rep.expect_min("C19.R4", 33, "13 pass-through keywords + 2 x (order, 3 count classes, first match, refuri)")
+    rep.expect_min("C19.R4", 36, "13 pass-through keywords + 2 x (order, 3 count classes, first match, refuri)")
 
 
 def _refuri_verdict(e: ast.expr, mv: str, rk: str, mod=None) -> str | None:
@@ -3502,6 +3579,17 @@ def mutants(corpus: Corpus):
             add("c19-sphinx-keys-grouped-by-type", "C19.R3", inv, sub0.slice, "1", "grouped by domain")
         dsp = find_node(fs, lambda n: isinstance(n, ast.Call) and isinstance(n.func, ast.Attribute) and n.func.attr == "split" and isinstance(parent(n), ast.Subscript) and isinstance(parent(parent(n)), ast.ListComp))
         add("c19-sphinx-domain-list-cut-at-last-colon", "C19.R3", inv, dsp.func if dsp is not None else None, f"{unparse(dsp.func.value)}.rsplit" if dsp is not None else "", "grouped by domain")
+        # class "every domain ranked by its last occurrence" ({domain: index} over enumerate instead of list.index)
+        dl_ = find_node(fs, lambda n: isinstance(n, ast.Assign) and isinstance(n.value, ast.ListComp) and isinstance(n.value.elt, ast.Subscript) and isinstance(n.targets[0], ast.Name))
+        lam_ = srt.value.keywords[0].value if srt.value.keywords and isinstance(srt.value.keywords[0].value, ast.Lambda) else None
+        if dl_ is not None and lam_ is not None and isinstance(lam_.body, ast.Call) and isinstance(lam_.body.func, ast.Attribute) and lam_.body.func.attr == "index" and dl_.lineno < lam_.lineno:
+            gen_ = dl_.value.generators[0]
+            dn_ = dl_.targets[0].id
+            src_ = splice(inv.src, lam_.body, f"{dn_}[{unparse(lam_.body.args[0])}]")
+            src_ = splice(src_, dl_.value, f"{{{unparse(dl_.value.elt)}: i_ for i_, {unparse(gen_.target)} in enumerate({unparse(gen_.iter)})}}")
+            out.append(Mutant("c19-sphinx-domains-ranked-by-last-occurrence", "C19.R3", inv.rel, src_, expect="grouped by domain"))
+        else:
+            out.append(("c19-sphinx-domains-ranked-by-last-occurrence", "domain list + list.index sort key not found in the expected shape"))
     else:
         out.append(("c19-sphinx-keys-not-grouped-by-domain", "no sort of the flat keys (fix a6d2b5d) in this tree"))
     if spf is not None:
@@ -3575,6 +3663,15 @@ def mutants(corpus: Corpus):
         add("c19-href-parsed-as-url", "C19.R4", base, prt, f"{tg[0]}, {tg[2]} = urlparse({hv}).path, urlparse({hv}).fragment", "split literally")
     else:
         out.append(("c19-href-parsed-as-url", "literal partition of the destination (fix 0aebc8a) not found / urlparse not imported"))
+    # a2a9a1a (inventories re-loaded for the configuration of every render): revert + the class "dropped only when the keys change"
+    sr = base.func("DocutilsRenderer.setup_render")
+    rs = find_node(sr, lambda n: isinstance(n, ast.Assign) and unparse(n.targets[0]) == "self._inventories" and isinstance(n.value, ast.Constant) and n.value.value is None)
+    if rs is not None:
+        ind = " " * rs.col_offset
+        add("c19-inventories-kept-across-configurations", "C19.R4", base, rs, "pass", "dropped when the renderer takes a configuration")
+        add("c19-inventories-dropped-only-when-keys-change", "C19.R4", base, rs, f"if self._inventories is not None and set(self._inventories) != set(self.md_config.inventories):\n{ind}    self._inventories = None", "dropped when the renderer takes a configuration")
+    else:
+        out.append(("c19-inventories-kept-across-configurations", "no unconditional reset of self._inventories in setup_render"))
     # class "which inventories are registered depends on the link being resolved"
     gm0 = base.func("DocutilsRenderer.get_inventory_matches")
     ll = find_node(gm0, lambda n: isinstance(n, ast.For) and "inventories.items()" in unparse(n.iter))
